@@ -642,3 +642,35 @@ def make_helper(item, origin):
     body = r1_strip_attrs_docs(body, [], origin)
     body = r3_bytes(body, [], origin)
     return {"name": item.name, "params": params, "self_kind": self_kind, "body_toks": body, "origin": origin}
+
+
+def cut_statement(toks, pat, tag, log, where):
+    """remove the statement (or local item) that starts with the code-token sequence `pat`, up to and including its
+       terminating `;` at bracket depth 0 (for `struct X { .. }` local items: up to the closing brace)."""
+    from extract import LostAnchor
+    ptoks = [t for t in lex(pat) if _is_code(t)]
+    code = [(i, t) for i, t in enumerate(toks) if _is_code(t)]
+    hit = None
+    for ci in range(len(code) - len(ptoks) + 1):
+        if all(code[ci + d][1].text == ptoks[d].text for d in range(len(ptoks))):
+            hit = ci
+            break
+    if hit is None:
+        raise LostAnchor("%s: cut pattern `%s` not found" % (where, pat))
+    a = code[hit][0]
+    j = a
+    is_item = ptoks[0].text in ("struct", "enum")
+    while j < len(toks):
+        t = toks[j]
+        if t.kind == "punct" and t.text in "([{":
+            cl = match_close(toks, j)
+            if is_item and t.text == "{":
+                j = cl
+                break
+            j = cl + 1
+            continue
+        if t.kind == "punct" and t.text == ";":
+            break
+        j += 1
+    log.append((tag, where, re.sub(r"\s+", " ", untok(toks[a:j + 1]))[:120] + " ...", "(removed; a stub with an explicit contract stands in)"))
+    return toks[:a] + toks[j + 1:]
